@@ -25,7 +25,7 @@ def tasks(tier):
           W('enough_covered.8_2', 'c18_enough_covered', nseq=8, nsub=2),
           W('enough_covered.10_6', 'c18_enough_covered', nseq=10, nsub=6),
           W('projection_matrix.4_2', 'c18_projection_matrix', nseq=4, nsub=2),
-          W('no_call.2', 'c18_no_call', nseq=2), W('no_call.4', 'c18_no_call', nseq=4), W('part_inbreeding', 'c18_part_inbreeding')]
+          W('no_call.2', 'c18_no_call', nseq=2), W('no_call.4', 'c18_no_call', nseq=4), W('part_inbreeding', 'c18_part_inbreeding'), W('subsample_draw', 'c18_subsample_draw')]
     if tier == 'thorough':
         ts += [W('projection_inbreeding.n5_k4', 'c18_projection_inbreeding', n=5, k=4),
                W('projection_inbreeding.n6_k2', 'c18_projection_inbreeding', n=6, k=2),
